@@ -88,6 +88,7 @@ func (c deepCase) source() string {
 func TestC01Deep(t *testing.T) {
 	r := hx.Start(t, "C01")
 	defer r.Finish(t)
+	r.Rule("deep_program: 24 shapes of one very deep or very wide construct (left-associative concatenation, nested calls / parens / blocks / else-if chains / func literals / index / unary / pointer, slice, map, func and struct types / composite literals, long selector chains, argument lists, statement lists, struct fields, switch cases, const specs, map elements, results, type parameters, labels) with sizes from {1, 2, 31..33, 63..65, 100, 127..129, 255..257, 499..501, 511..513, 1000, 1023..1025, 2000} and 1..1200, through the same round trip; non-trivial = translated")
 	ck := hx.Check[deepCase]{Name: "deep_program", Fn: func(c deepCase) error {
 		return check(Case{Name: "deep.go", Src: recipe.Text(c.source())})
 	}}
